@@ -524,6 +524,16 @@ func NoteLowerBound(sym, prev *Term) {
 	lowerBounds[sym.id] = lowerBound{b, k}
 }
 
+// nilOrGe records facts  t == 0 || t >= bound  (objects reachable from inputs
+// are nil or were not allocated by package initialisation).
+var nilOrGe = map[int]*big.Int{}
+
+func NoteNilOrGe(t, bound *Term) {
+	if bound.Op == "int" {
+		nilOrGe[t.id] = bound.IVal
+	}
+}
+
 // upperBounds records facts  t < bound  for object ids read from memory.
 var upperBounds = map[int]*Term{}
 
@@ -615,6 +625,11 @@ func eq1(a, b *Term) *Term {
 		}
 		if knownGreater(a, b) || knownGreater(b, a) {
 			return False
+		}
+		for _, p := range [][2]*Term{{a, b}, {b, a}} {
+			if lo, ok := nilOrGe[p[0].id]; ok && p[1].Op == "int" && p[1].IVal.Sign() != 0 && p[1].IVal.Cmp(lo) < 0 {
+				return False
+			}
 		}
 	}
 	if a.Sort == BoolS {
